@@ -51,7 +51,7 @@ namespace
             runtime.__logmsg(err::ExpectedArrayTypeMissmatch(runtime.context_active().current_frame().diag_info_from_position(), 0, t_scalar(), arr->at(0).type()));
             return {};
         }
-        int start = static_cast<int>(std::round(arr->at(0).data<d_scalar, float>()));
+        int start = util::round_to_int(arr->at(0).data<d_scalar, float>());
         if (start < 0)
         {
             runtime.__logmsg(err::NegativeIndexWeak(runtime.context_active().current_frame().diag_info_from_position()));
@@ -71,7 +71,7 @@ namespace
                 runtime.__logmsg(err::ExpectedArrayTypeMissmatch(runtime.context_active().current_frame().diag_info_from_position(), 1, t_scalar(), arr->at(1).type()));
                 return {};
             }
-            int length = static_cast<int>(std::round(arr->at(1).data<d_scalar, float>()));
+            int length = util::round_to_int(arr->at(1).data<d_scalar, float>());
             if (length < 0)
             {
                 runtime.__logmsg(err::NegativeIndexWeak(runtime.context_active().current_frame().diag_info_from_position()));
